@@ -1288,6 +1288,7 @@ package gkvlite
 //@   ensures [C07] E1: io.fails >= old(io.fails) && (io.fails > old(io.fails) ==> err != nil)
 //@   ensures [C07] error-means-no-item: err != nil ==> res == nil
 //@   ensures [C01] item-of-the-tree: err == nil && res != nil ==> mem(ikey(ia(res)), old(tvs)[old(t.root.root)]) && ia(res) == itemAt(ikey(ia(res)), old(tvs)[old(t.root.root)]) && ipri(ia(res)) == res.Priority
+//@   ensures [C01,C16] key-position-is-the-keys: err == nil && res != nil ==> ikey(ia(res)) == ord(res.Key)
 //@   ensures [C01] leftmost: err == nil && walkDir(codeOf(cfn)) == 0 ==> (res == nil) == isLeaf(old(tvs)[old(t.root.root)]) && (res != nil ==> forall k {mem(k, old(tvs)[old(t.root.root)])} :: mem(k, old(tvs)[old(t.root.root)]) ==> k >= ikey(ia(res)))
 //@   ensures [C01] rightmost: err == nil && walkDir(codeOf(cfn)) == 1 ==> (res == nil) == isLeaf(old(tvs)[old(t.root.root)]) && (res != nil ==> forall k {mem(k, old(tvs)[old(t.root.root)])} :: mem(k, old(tvs)[old(t.root.root)]) ==> k <= ikey(ia(res)))
 //@   ensures [C15] evicting-walk-returns-no-item: err == nil && walkDir(codeOf(cfn)) == 2 ==> res == nil
@@ -1312,6 +1313,7 @@ package gkvlite
 //@   ensures [C15] caller-owes-the-release: orphans == old(orphans) + (result0 != nil ? 1 : 0)
 //@   ensures [C07] E1: io.fails >= old(io.fails) && (io.fails > old(io.fails) ==> result1 != nil)
 //@   ensures [C01,C11] minimum: result1 == nil ==> (result0 == nil) == isLeaf(old(tvs)[old(t.root.root)]) && (result0 != nil ==> mem(ikey(ia(result0)), old(tvs)[old(t.root.root)]) && ia(result0) == itemAt(ikey(ia(result0)), old(tvs)[old(t.root.root)]) && (forall k {mem(k, old(tvs)[old(t.root.root)])} :: mem(k, old(tvs)[old(t.root.root)]) ==> k >= ikey(ia(result0))))
+//@   ensures [C01,C16] key-position-is-the-keys: result1 == nil && result0 != nil ==> ikey(ia(result0)) == ord(result0.Key)
 //@   ensures [C07] error-means-no-item: result1 != nil ==> result0 == nil
 //@   ensures [C19] key-only-reads-no-value: !withValue ==> io.valbytes == old(io.valbytes)
 //@   ensures [C04,C09] changes-no-version: t.root == old(t.root) && rootNodeLoc.refs == old(rootNodeLoc.refs) && rootNodeLoc.root == old(rootNodeLoc.root) && rootNodeLoc.next == old(rootNodeLoc.next) && rootNodeLoc.chainedCollection == old(rootNodeLoc.chainedCollection) && rootNodeLoc.chainedRootNodeLoc == old(rootNodeLoc.chainedRootNodeLoc) && tvs == old(tvs) && ias == old(ias) && (forall m {node.next[m]} :: !fresh(m) ==> node.next[m] == old(node.next[m])) && (forall x {nodeLoc.loc[x]} {nodeLoc.next[x]} :: !fresh(x) ==> nodeLoc.loc[x] == old(nodeLoc.loc[x]) && nodeLoc.next[x] == old(nodeLoc.next[x])) && freeNodes == old(freeNodes) && freeNodeLocs == old(freeNodeLocs) && freeRootNodeLocs == old(freeRootNodeLocs)
@@ -1326,6 +1328,7 @@ package gkvlite
 //@   ensures [C15] caller-owes-the-release: orphans == old(orphans) + (result0 != nil ? 1 : 0)
 //@   ensures [C07] E1: io.fails >= old(io.fails) && (io.fails > old(io.fails) ==> result1 != nil)
 //@   ensures [C01] maximum: result1 == nil ==> (result0 == nil) == isLeaf(old(tvs)[old(t.root.root)]) && (result0 != nil ==> mem(ikey(ia(result0)), old(tvs)[old(t.root.root)]) && ia(result0) == itemAt(ikey(ia(result0)), old(tvs)[old(t.root.root)]) && (forall k {mem(k, old(tvs)[old(t.root.root)])} :: mem(k, old(tvs)[old(t.root.root)]) ==> k <= ikey(ia(result0))))
+//@   ensures [C01,C16] key-position-is-the-keys: result1 == nil && result0 != nil ==> ikey(ia(result0)) == ord(result0.Key)
 //@   ensures [C07] error-means-no-item: result1 != nil ==> result0 == nil
 //@   ensures [C19] key-only-reads-no-value: !withValue ==> io.valbytes == old(io.valbytes)
 //@   ensures [C04,C09] changes-no-version: t.root == old(t.root) && rootNodeLoc.refs == old(rootNodeLoc.refs) && rootNodeLoc.root == old(rootNodeLoc.root) && rootNodeLoc.next == old(rootNodeLoc.next) && rootNodeLoc.chainedCollection == old(rootNodeLoc.chainedCollection) && rootNodeLoc.chainedRootNodeLoc == old(rootNodeLoc.chainedRootNodeLoc) && tvs == old(tvs) && ias == old(ias) && (forall m {node.next[m]} :: !fresh(m) ==> node.next[m] == old(node.next[m])) && (forall x {nodeLoc.loc[x]} {nodeLoc.next[x]} :: !fresh(x) ==> nodeLoc.loc[x] == old(nodeLoc.loc[x]) && nodeLoc.next[x] == old(nodeLoc.next[x])) && freeNodes == old(freeNodes) && freeNodeLocs == old(freeNodeLocs) && freeRootNodeLocs == old(freeRootNodeLocs)
@@ -1371,18 +1374,20 @@ package gkvlite
 //@ functype ItemVisitorEx(i, depth) (r)
 //@   from: A9 (neutral visitor): a visitor call appends what it was handed to the ghost log, or refuses (returns false) without logging; returning false sets vis.stop
 //@   requires i != nil && locks == emptyLocks()
-//@   modifies ghost vis.n, ghost vis.key, ghost vis.item, ghost vis.depth, ghost vis.hasval, ghost vis.stop
+//@   modifies older(self) cell.Int, ghost vis.n, ghost vis.key, ghost vis.item, ghost vis.depth, ghost vis.hasval, ghost vis.stop
 //@   ensures logs-or-refuses: (vis.n == old(vis.n) + 1 && vis.key == upd(old(vis.key), old(vis.n), ikey(ia(i))) && vis.item == upd(old(vis.item), old(vis.n), ia(i)) && vis.hasval == upd(old(vis.hasval), old(vis.n), i.Val != nil) && vis.depth == upd(old(vis.depth), old(vis.n), depth)) || (!r && vis.n == old(vis.n) && vis.key == old(vis.key) && vis.item == old(vis.item) && vis.depth == old(vis.depth) && vis.hasval == old(vis.hasval))
 //@   ensures kept-going: r ==> vis.n == old(vis.n) + 1 && vis.stop == old(vis.stop)
 //@   ensures stopped: !r ==> vis.stop
+//@   ensures [C16] visitor-invariant-kept: forall z {vinv(self, z)} {old(vinv(self, z))} :: old(vinv(self, z)) ==> vinv(self, z)
 
 //@ functype ItemVisitor(i) (r)
 //@   from: A9 (neutral visitor), as ItemVisitorEx without the depth
 //@   requires i != nil && locks == emptyLocks()
-//@   modifies ghost vis.n, ghost vis.key, ghost vis.item, ghost vis.depth, ghost vis.hasval, ghost vis.stop
+//@   modifies older(self) cell.Int, ghost vis.n, ghost vis.key, ghost vis.item, ghost vis.depth, ghost vis.hasval, ghost vis.stop
 //@   ensures logs-or-refuses: (vis.n == old(vis.n) + 1 && vis.key == upd(old(vis.key), old(vis.n), ikey(ia(i))) && vis.item == upd(old(vis.item), old(vis.n), ia(i)) && vis.hasval == upd(old(vis.hasval), old(vis.n), i.Val != nil) && (forall d {vis.depth[d]} :: d != old(vis.n) ==> vis.depth[d] == old(vis.depth)[d])) || (!r && vis.n == old(vis.n) && vis.key == old(vis.key) && vis.item == old(vis.item) && vis.depth == old(vis.depth) && vis.hasval == old(vis.hasval))
 //@   ensures kept-going: r ==> vis.n == old(vis.n) + 1 && vis.stop == old(vis.stop)
 //@   ensures stopped: !r ==> vis.stop
+//@   ensures [C16] visitor-invariant-kept: forall z {vinv(self, z)} {old(vinv(self, z))} :: old(vinv(self, z)) ==> vinv(self, z)
 
 //@ func (*node).Evict
 //@   props C15 C06 C01
@@ -1400,7 +1405,7 @@ package gkvlite
 //@   requires o != nil && t != nil && t.store == o && t.compare != nil && visitor != nil && choiceFunc != nil
 //@   requires direction: visitDir(codeOf(choiceFunc)) == 0 || visitDir(codeOf(choiceFunc)) == 1
 //@   requires [C06] search-tree: bst(tvs[n])
-//@   modifies nodeLoc.node, itemLoc.item, ghost net, ghost orphans, ghost vis.n, ghost vis.key, ghost vis.item, ghost vis.depth, ghost vis.hasval, ghost vis.stop, o.nodeAllocs, new ploc.Offset, new ploc.Length, new node.numNodes, new node.numBytes, new node.next, new itemLoc.loc, new itemLoc.item, new nodeLoc.loc, new nodeLoc.node, new nodeLoc.next, new Item.Key, new Item.Val, new Item.Priority, new Item.Transient, new mem.byte, ghost io.fails, ghost io.reads, ghost io.valbytes, ghost src
+//@   modifies older(visitor) cell.Int, nodeLoc.node, itemLoc.item, ghost net, ghost orphans, ghost vis.n, ghost vis.key, ghost vis.item, ghost vis.depth, ghost vis.hasval, ghost vis.stop, o.nodeAllocs, new ploc.Offset, new ploc.Length, new node.numNodes, new node.numBytes, new node.next, new itemLoc.loc, new itemLoc.item, new nodeLoc.loc, new nodeLoc.node, new nodeLoc.next, new Item.Key, new Item.Val, new Item.Priority, new Item.Transient, new mem.byte, ghost io.fails, ghost io.reads, ghost io.valbytes, ghost src
 //@   decreases cnt(tvs[n])
 //@   ensures [C07] E1: io.fails >= old(io.fails) && (io.fails > old(io.fails) ==> result1 != nil)
 //@   ensures [C07] error-stops: result1 != nil ==> !result0
@@ -1412,6 +1417,7 @@ package gkvlite
 //@   ensures [C01] never-unloads-nodes: forall x {nodeLoc.node[x]} :: x != nil && !fresh(x) && old(nodeLoc.node[x]) != nil ==> nodeLoc.node[x] == old(nodeLoc.node[x])
 //@   ensures [C01] item-slots-stay-occupied: forall y {itemLoc.item[y]} :: !fresh(y) && (old(itemLoc.item[y]) != nil || !emptyLoc(itemLoc.loc[y])) ==> itemLoc.item[y] != nil || !emptyLoc(itemLoc.loc[y])
 //@   ensures [C19] key-only-reads-no-value: !withValue ==> io.valbytes == old(io.valbytes)
+//@   ensures [C16] visitor-invariant-kept: forall z {vinv(visitor, z)} {old(vinv(visitor, z))} :: old(vinv(visitor, z)) ==> vinv(visitor, z)
 //@   ensures [C15] in-visit-eviction-releases-what-it-drops: orphans == old(orphans)
 
 //@ func (*Store).visitNodes$1
@@ -1435,24 +1441,33 @@ package gkvlite
 //@   ensures logs-or-refuses: (vis.n == old(vis.n) + 1 && vis.key == upd(old(vis.key), old(vis.n), ikey(ia(i))) && vis.item == upd(old(vis.item), old(vis.n), ia(i)) && vis.hasval == upd(old(vis.hasval), old(vis.n), i.Val != nil) && vis.depth == upd(old(vis.depth), old(vis.n), depth)) || (!result && vis.n == old(vis.n) && vis.key == old(vis.key) && vis.item == old(vis.item) && vis.depth == old(vis.depth) && vis.hasval == old(vis.hasval))
 //@   ensures kept-going: result ==> vis.n == old(vis.n) + 1 && vis.stop == old(vis.stop)
 //@   ensures stopped: !result ==> vis.stop
+//@   tracks deref(errCheckedVisitor) != nil || vinv(deref(visitor), z)
+//@   captures cells-are-younger-than-the-inner-visitor: birth(prevVisitItem) >= birth(deref(visitor)) && birth(errCheckedVisitor) >= birth(deref(visitor)) && birth(visitor) >= birth(deref(visitor)) && birth(t) >= birth(deref(visitor)) && prevVisitItem != errCheckedVisitor && prevVisitItem != visitor && errCheckedVisitor != visitor && prevVisitItem != t && errCheckedVisitor != t
+//@   ensures [C16] visitor-invariant-kept: forall z {vinv(self, z)} {old(vinv(self, z))} :: old(vinv(self, z)) ==> vinv(self, z)
 
 //@ func (*Collection).VisitItemsAscend$1
 //@   props C06
 //@   from: adapts an ItemVisitor to ItemVisitorEx; the depth it was handed is recorded in the log entry the inner visitor wrote (ghost code)
 //@   requires i != nil && locks == emptyLocks() && v != nil && deref(v) != nil
-//@   modifies ghost vis.n, ghost vis.key, ghost vis.item, ghost vis.depth, ghost vis.hasval, ghost vis.stop
+//@   modifies cell.Int, ghost vis.n, ghost vis.key, ghost vis.item, ghost vis.depth, ghost vis.hasval, ghost vis.stop
+//@   captures cells-are-younger-than-the-inner-visitor: birth(v) >= birth(deref(v))
 //@   after ItemVisitor.0 sets vis.depth := (vis.n == old(vis.n) + 1 ? upd(vis.depth, old(vis.n), depth) : vis.depth)
 //@   ensures logs-or-refuses: (vis.n == old(vis.n) + 1 && vis.key == upd(old(vis.key), old(vis.n), ikey(ia(i))) && vis.item == upd(old(vis.item), old(vis.n), ia(i)) && vis.hasval == upd(old(vis.hasval), old(vis.n), i.Val != nil) && (forall d {vis.depth[d]} :: d != old(vis.n) ==> vis.depth[d] == old(vis.depth)[d]) && vis.depth[old(vis.n)] == depth) || (!result && vis.n == old(vis.n) && vis.key == old(vis.key) && vis.item == old(vis.item) && vis.depth == old(vis.depth) && vis.hasval == old(vis.hasval))
 //@   ensures kept-going: result ==> vis.n == old(vis.n) + 1 && vis.stop == old(vis.stop)
+//@   tracks true
+//@   ensures [C16] visitor-invariant-kept: forall z {vinv(self, z)} {old(vinv(self, z))} :: old(vinv(self, z)) ==> vinv(self, z)
 //@   ensures stopped: !result ==> vis.stop
 
 //@ func (*Collection).VisitItemsDescend$1
 //@   props C06
 //@   requires i != nil && locks == emptyLocks() && v != nil && deref(v) != nil
-//@   modifies ghost vis.n, ghost vis.key, ghost vis.item, ghost vis.depth, ghost vis.hasval, ghost vis.stop
+//@   modifies cell.Int, ghost vis.n, ghost vis.key, ghost vis.item, ghost vis.depth, ghost vis.hasval, ghost vis.stop
+//@   captures cells-are-younger-than-the-inner-visitor: birth(v) >= birth(deref(v))
 //@   after ItemVisitor.0 sets vis.depth := (vis.n == old(vis.n) + 1 ? upd(vis.depth, old(vis.n), depth) : vis.depth)
 //@   ensures logs-or-refuses: (vis.n == old(vis.n) + 1 && vis.key == upd(old(vis.key), old(vis.n), ikey(ia(i))) && vis.item == upd(old(vis.item), old(vis.n), ia(i)) && vis.hasval == upd(old(vis.hasval), old(vis.n), i.Val != nil) && (forall d {vis.depth[d]} :: d != old(vis.n) ==> vis.depth[d] == old(vis.depth)[d]) && vis.depth[old(vis.n)] == depth) || (!result && vis.n == old(vis.n) && vis.key == old(vis.key) && vis.item == old(vis.item) && vis.depth == old(vis.depth) && vis.hasval == old(vis.hasval))
 //@   ensures kept-going: result ==> vis.n == old(vis.n) + 1 && vis.stop == old(vis.stop)
+//@   tracks true
+//@   ensures [C16] visitor-invariant-kept: forall z {vinv(self, z)} {old(vinv(self, z))} :: old(vinv(self, z)) ==> vinv(self, z)
 //@   ensures stopped: !result ==> vis.stop
 
 //@ func (*Collection).VisitItemsAscendEx
@@ -1473,6 +1488,7 @@ package gkvlite
 //@   ensures [C06,C11] complete-unless-stopped: result == nil && !vis.stop ==> forall k {mem(k, old(tvs)[old(t.root.root)])} :: mem(k, old(tvs)[old(t.root.root)]) && k >= ord(target) ==> exists idx {vis.key[idx]} :: old(vis.n) <= idx && idx < vis.n && vis.key[idx] == k
 //@   ensures [C19] key-only-reads-no-value: !withValue ==> io.valbytes == old(io.valbytes)
 //@   ensures [C04,C09,C18] visit-changes-no-version: t.root == old(t.root) && rootNodeLoc.refs == old(rootNodeLoc.refs) && rootNodeLoc.root == old(rootNodeLoc.root) && rootNodeLoc.next == old(rootNodeLoc.next) && rootNodeLoc.chainedCollection == old(rootNodeLoc.chainedCollection) && rootNodeLoc.chainedRootNodeLoc == old(rootNodeLoc.chainedRootNodeLoc) && tvs == old(tvs) && ias == old(ias) && (forall m {node.next[m]} :: !fresh(m) ==> node.next[m] == old(node.next[m])) && (forall x {nodeLoc.loc[x]} {nodeLoc.next[x]} :: !fresh(x) ==> nodeLoc.loc[x] == old(nodeLoc.loc[x]) && nodeLoc.next[x] == old(nodeLoc.next[x])) && freeNodes == old(freeNodes) && freeNodeLocs == old(freeNodeLocs) && freeRootNodeLocs == old(freeRootNodeLocs)
+//@   ensures [C16] visitor-invariant-kept-unless-an-error-is-returned: result == nil ==> (forall z {vinv(visitor, z)} {old(vinv(visitor, z))} :: old(vinv(visitor, z)) ==> vinv(visitor, z))
 //@   ensures [C15] in-visit-eviction-releases-what-it-drops: orphans == old(orphans)
 
 //@ func (*Collection).VisitItemsDescendEx
@@ -1550,6 +1566,8 @@ package gkvlite
 //@   after entry sets vis.n := vis.n + 1
 //@   ensures logs: vis.n == old(vis.n) + 1 && vis.key == upd(old(vis.key), old(vis.n), ikey(ia(i))) && vis.item == upd(old(vis.item), old(vis.n), ia(i)) && vis.hasval == upd(old(vis.hasval), old(vis.n), i.Val != nil) && vis.depth == upd(old(vis.depth), old(vis.n), depth)
 //@   ensures kept-going: result && vis.stop == old(vis.stop)
+//@   tracks deref(l) - vis.n == z && !vis.stop
+//@   ensures [C16] visitor-invariant-kept: forall z {vinv(self, z)} {old(vinv(self, z))} :: old(vinv(self, z)) ==> vinv(self, z)
 //@   ensures [C16] counts-every-call: deref(l) == old(deref(l)) + 1
 
 //@ func (*Collection).Len
@@ -1558,8 +1576,13 @@ package gkvlite
 //@   requires [C05,C18] nolocks: locks == emptyLocks()
 //@   requires t != nil && t.store != nil && t.rootLock != nil && t.compare != nil
 //@   requires [C07] open-handle: t.root != nil
+//@   relies [C13] published-root-is-a-search-tree: t.root.root != nil && bst(tvs[t.root.root])
 //@   modifies rootNodeLoc.refs, rootNodeLoc.root, rootNodeLoc.next, rootNodeLoc.chainedCollection, rootNodeLoc.chainedRootNodeLoc, node.numNodes, node.numBytes, node.next, itemLoc.loc, itemLoc.item, nodeLoc.loc, nodeLoc.node, nodeLoc.next, mem.ptr, G.freeNodes, G.freeNodeLocs, G.freeRootNodeLocs, AllocStats.CurFreeNodes, AllocStats.FreeNodes, AllocStats.CurFreeNodeLocs, AllocStats.FreeNodeLocs, AllocStats.CurFreeRootNodeLocs, AllocStats.FreeRootNodeLocs, ghost net, ghost tvs, t.store.nodeAllocs, new ploc.Offset, new ploc.Length, new node.numNodes, new node.numBytes, new node.next, new itemLoc.loc, new itemLoc.item, new nodeLoc.loc, new nodeLoc.node, new nodeLoc.next, new Item.Key, new Item.Val, new Item.Priority, new Item.Transient, new mem.byte, ghost io.fails, ghost io.reads, ghost io.valbytes, ghost src, cell.Int, ghost orphans, ghost vis.n, ghost vis.key, ghost vis.item, ghost vis.depth, ghost vis.hasval, ghost vis.stop
 //@   ensures [C07] E1: io.fails >= old(io.fails) && (io.fails > old(io.fails) ==> err != nil)
+//@   after entry sets vis.stop := false
+//@   after (*Collection).VisitItemsAscendEx.0 asserts [C16] the-counting-visitor-kept-its-invariant: callresult == nil ==> vinv(visitor, 0 - old(vis.n))
+//@   after (*Collection).VisitItemsAscendEx.0 asserts [C16] the-log-enumerates-the-collection: callresult == nil ==> enumerates(vis.key, old(vis.n), vis.n, old(tvs)[old(t.root.root)])
+//@   ensures [C16] length-is-the-number-of-items: err == nil ==> l == cnt(old(tvs)[old(t.root.root)])
 //@   ensures [C16] empty-collection-has-length-zero: err == nil && isLeaf(old(tvs)[old(t.root.root)]) ==> l == 0
 //@   ensures [C19] key-only-reads-no-value: io.valbytes == old(io.valbytes)
 //@   ensures [C04,C09,C18] changes-no-version: t.root == old(t.root) && rootNodeLoc.refs == old(rootNodeLoc.refs) && rootNodeLoc.root == old(rootNodeLoc.root) && rootNodeLoc.next == old(rootNodeLoc.next) && rootNodeLoc.chainedCollection == old(rootNodeLoc.chainedCollection) && rootNodeLoc.chainedRootNodeLoc == old(rootNodeLoc.chainedRootNodeLoc) && tvs == old(tvs) && ias == old(ias) && (forall m {node.next[m]} :: !fresh(m) ==> node.next[m] == old(node.next[m])) && (forall x {nodeLoc.loc[x]} {nodeLoc.next[x]} :: !fresh(x) ==> nodeLoc.loc[x] == old(nodeLoc.loc[x]) && nodeLoc.next[x] == old(nodeLoc.next[x])) && freeNodes == old(freeNodes) && freeNodeLocs == old(freeNodeLocs) && freeRootNodeLocs == old(freeRootNodeLocs)
@@ -1668,6 +1691,8 @@ package gkvlite
 //@   after entry sets vis.n := vis.n + 1
 //@   ensures logs: vis.n == old(vis.n) + 1 && vis.key == upd(old(vis.key), old(vis.n), ikey(ia(i))) && vis.item == upd(old(vis.item), old(vis.n), ia(i)) && vis.hasval == upd(old(vis.hasval), old(vis.n), i.Val != nil) && vis.depth == upd(old(vis.depth), old(vis.n), depth)
 //@   ensures kept-going: result && vis.stop == old(vis.stop)
+//@   tracks true
+//@   ensures [C16] visitor-invariant-kept: forall z {vinv(self, z)} {old(vinv(self, z))} :: old(vinv(self, z)) ==> vinv(self, z)
 
 //@ func (*Collection).VisitItemsAscendBlockEx$2
 //@   props C16 C06 C07
@@ -1675,9 +1700,12 @@ package gkvlite
 //@   requires i != nil && j != nil && lenBlock != nil && visitor != nil && deref(visitor) != nil && locks == emptyLocks() && j != visitor && j != lenBlock
 //@   captures [C07] counter-within-block: deref(j) <= deref(lenBlock)
 //@   modifies cell.Int, ghost vis.n, ghost vis.key, ghost vis.item, ghost vis.depth, ghost vis.hasval, ghost vis.stop
+//@   captures cells-are-younger-than-the-inner-visitor: birth(j) >= birth(deref(visitor)) && birth(lenBlock) >= birth(deref(visitor)) && birth(visitor) >= birth(deref(visitor))
 //@   after ItemVisitorEx.0 sets vis.stop := true
 //@   ensures logs-or-refuses: (vis.n == old(vis.n) + 1 && vis.key == upd(old(vis.key), old(vis.n), ikey(ia(i))) && vis.item == upd(old(vis.item), old(vis.n), ia(i)) && vis.hasval == upd(old(vis.hasval), old(vis.n), i.Val != nil) && vis.depth == upd(old(vis.depth), old(vis.n), depth)) || (!result && vis.n == old(vis.n) && vis.key == old(vis.key) && vis.item == old(vis.item) && vis.depth == old(vis.depth) && vis.hasval == old(vis.hasval))
 //@   ensures kept-going: result ==> vis.n == old(vis.n) + 1 && vis.stop == old(vis.stop)
+//@   tracks true
+//@   ensures [C16] visitor-invariant-kept: forall z {vinv(self, z)} {old(vinv(self, z))} :: old(vinv(self, z)) ==> vinv(self, z)
 //@   ensures stopped: !result ==> vis.stop
 //@   ensures [C07] block-length-untouched: deref(lenBlock) == old(deref(lenBlock))
 
@@ -1729,16 +1757,21 @@ package gkvlite
 //@   after entry sets vis.n := vis.n + 1
 //@   ensures logs: vis.n == old(vis.n) + 1 && vis.key == upd(old(vis.key), old(vis.n), ikey(ia(i))) && vis.item == upd(old(vis.item), old(vis.n), ia(i)) && vis.hasval == upd(old(vis.hasval), old(vis.n), i.Val != nil) && vis.depth == upd(old(vis.depth), old(vis.n), depth)
 //@   ensures kept-going: result && vis.stop == old(vis.stop)
+//@   tracks true
+//@   ensures [C16] visitor-invariant-kept: forall z {vinv(self, z)} {old(vinv(self, z))} :: old(vinv(self, z)) ==> vinv(self, z)
 
 //@ func (*Collection).VisitItemsRandom$2
 //@   props C16 C06 C07
 //@   from: the per-block visitor: the first item it is handed goes to the caller's visitor, the second becomes the block's new start and stops the visit; handed to VisitItemsAscendEx as its visitor, so it must satisfy the ItemVisitorEx contract
 //@   requires itm != nil && first != nil && advanced != nil && blockStore != nil && i != nil && visitor != nil && deref(visitor) != nil && locks == emptyLocks() && first != advanced
 //@   captures [C07] block-index-in-range: 0 <= deref(i) && deref(i) < len(deref(blockStore))
-//@   modifies cell.Bool, content(deref(blockStore)), ghost vis.n, ghost vis.key, ghost vis.item, ghost vis.depth, ghost vis.hasval, ghost vis.stop
+//@   modifies cell.Int, cell.Bool, content(deref(blockStore)), ghost vis.n, ghost vis.key, ghost vis.item, ghost vis.depth, ghost vis.hasval, ghost vis.stop
+//@   captures cells-are-younger-than-the-inner-visitor: birth(i) >= birth(deref(visitor)) && birth(visitor) >= birth(deref(visitor))
 //@   after entry sets vis.stop := vis.stop || !deref(first)
 //@   ensures logs-or-refuses: (vis.n == old(vis.n) + 1 && vis.key == upd(old(vis.key), old(vis.n), ikey(ia(itm))) && vis.item == upd(old(vis.item), old(vis.n), ia(itm)) && vis.hasval == upd(old(vis.hasval), old(vis.n), itm.Val != nil) && vis.depth == upd(old(vis.depth), old(vis.n), depth)) || (!result && vis.n == old(vis.n) && vis.key == old(vis.key) && vis.item == old(vis.item) && vis.depth == old(vis.depth) && vis.hasval == old(vis.hasval))
 //@   ensures kept-going: result ==> vis.n == old(vis.n) + 1 && vis.stop == old(vis.stop)
+//@   tracks true
+//@   ensures [C16] visitor-invariant-kept: forall z {vinv(self, z)} {old(vinv(self, z))} :: old(vinv(self, z)) ==> vinv(self, z)
 //@   ensures stopped: !result ==> vis.stop
 //@   ensures [C07] block-table-untouched: deref(blockStore) == old(deref(blockStore)) && deref(i) == old(deref(i))
 
